@@ -1096,14 +1096,14 @@ func (e *Engine) convert(st *State, x Val, from, to types.Type, pos token.Pos) V
 		t := st.define("f2i", "Int", "(to_int "+x.T+")")
 		return Val{K: KInt, T: t, Ty: to}
 	case fk == KSlice && tk == KStr:
-		t := st.define("s", "Str", "(str_of "+st.heap("Hi")+" "+x.Base+" "+x.Off+" "+x.Len+")")
+		t := st.define("s", "Str", "(str_of "+st.heap("Hy")+" "+x.Base+" "+x.Off+" "+x.Len+")")
 		return Val{K: KStr, T: t, Ty: to}
 	case fk == KStr && tk == KSlice:
 		root := st.newRoot()
 		addr := "(ref " + root + " pnil)"
 		st.private[root] = true
 		q := e.fresh("qi")
-		h := st.heap("Hi")
+		h := st.heap("Hy")
 		st.assume("(forall ((" + q + " Int)) (! (=> (and (<= 0 " + q + ") (< " + q + " (slen " + x.T + "))) (= (select " + h + " (elem " + addr + " " + q + ")) (sat " + x.T + " " + q + "))) :pattern ((select " + h + " (elem " + addr + " " + q + ")))))")
 		return Val{K: KSlice, Base: addr, Off: "0", Len: "(slen " + x.T + ")", Cap: "(slen " + x.T + ")", Ty: to, Root: root, NonNil: true}
 	case fk == KInt && tk == KStr:
